@@ -22,7 +22,7 @@ RULE = ('statement lists len<=N over the menu x layouts (base; every single layo
         'is parsed twice (raw statement stream vs model, parse_config -> config_str vs canonical layout). Malformed '
         'names x position must raise SyntaxError. distinct = distinct rendered text; non-trivial = not the base layout.')
 ASSUMPTIONS = ['statement and layout menus as in coverage', 'in-memory file for the include statement']
-WITNESSES = ['block_form', 'comment_after_block_header', 'blank_inside_block', 'continuation', 'no_trailing_newline',
+WITNESSES = ['lenient_layouts_agree', 'block_form', 'comment_after_block_header', 'blank_inside_block', 'continuation', 'no_trailing_newline',
              'indented_flat', 'block_then_flat', 'block_then_block', 'import_forms', 'macro_spellings',
              'malformed_rejected', 'tab_indent', 'layouts_same_config', 'crlf_line_endings']
 
@@ -42,6 +42,12 @@ def setup():
   def h():
     return 1
   gin.config.register_file_reader(lambda p: io.StringIO(MEM[p]), lambda p: p in MEM)
+  import atexit, os, shutil, sys, tempfile  # pylint: disable=import-outside-toplevel,multiple-imports
+  d = tempfile.mkdtemp(prefix='c03_')
+  with open(os.path.join(d, 'c03late.py'), 'w') as fh:      # registers its configurable when it is imported
+    fh.write('import gin\n\n@gin.configurable\ndef late_widget(a=None, b=None):\n  return (a, b)\n')
+  sys.path.insert(0, d)
+  atexit.register(lambda: shutil.rmtree(d, ignore_errors=True))
 
   # names that coincide with the contextual keywords of the statement grammar
   for kw in ('include', 'import'):
@@ -474,6 +480,41 @@ def gen_lists(tier):
       yield list(t)
 
 
+# --------------------------------------------------------------------- lenient parsing: flat and block layouts agree
+# (the same statements, some of which name a configurable that only a later `import` registers)
+LENIENT = {
+    'first_flat_later_flat': "late_widget.a = 1\nimport c03late\nlate_widget.b = 2\n",
+    'first_block_later_flat': "late_widget:\n  a = 1\nimport c03late\nlate_widget.b = 2\n",
+    'first_flat_later_block': "late_widget.a = 1\nimport c03late\nlate_widget:\n  b = 2\n",
+    'first_block_later_block': "late_widget:\n  a = 1\n\nimport c03late\nlate_widget:\n  b = 2\n",
+    'scoped_block_then_flat': "s/late_widget:\n  a = 1\nimport c03late\ns/late_widget.b = 2\nlate_widget.b = 3\n",
+}
+
+
+def check_lenient(name, res):
+  import sys  # pylint: disable=import-outside-toplevel
+  desc = ['lenient', name]
+  outs = {}
+  for skip in (True, ['late_widget'], ('late_widget',)):
+    harness.hard_reset()
+    sys.modules.pop('c03late', None)
+    res.case(('lenient', name, repr(skip)), True)
+    try:
+      gin.parse_config(LENIENT[name], skip_unknown=skip)
+      outs[repr(skip)] = {k: dict(v) for k, v in cfg._CONFIG.items()}
+    except Exception as e:  # pylint: disable=broad-except
+      outs[repr(skip)] = 'raised %r' % (e,)
+  want = {('', 'c03late.late_widget'): {'b': 2}}
+  if name.startswith('scoped'):
+    want = {('s', 'c03late.late_widget'): {'b': 2}, ('', 'c03late.late_widget'): {'b': 3}}
+  bad = {k: v for k, v in outs.items() if v != want}
+  if bad:
+    res.violation('stream_differs', '%r: lenient parse of\n%s\ngave %r, every layout of these statements gives %r' %
+                  (desc, LENIENT[name], bad, want), desc)
+  else:
+    res.w('lenient_layouts_agree')
+
+
 NSH = 96
 
 
@@ -493,6 +534,9 @@ def run_shard(i, tier):
   for n, case in enumerate(malformed_cases()):
     if n % NSH == i:
       check_malformed(case, res)
+  for n, name in enumerate(LENIENT):
+    if n % NSH == i:
+      check_lenient(name, res)
   harness.hard_reset()
   return res
 
@@ -501,6 +545,8 @@ def replay(desc):
   res = core.Result()
   if desc[0] in ('malformed', 'malformed_value'):
     check_malformed(desc, res)
+  elif desc[0] == 'lenient':
+    check_lenient(desc[1], res)
   else:
     check_list(desc[0], 'thorough', res)
   harness.hard_reset()
